@@ -440,8 +440,10 @@ def rule_iterator_reuse(rep, res, entry=None):
         seen.add(k)
         rep.violated("R-TYPESTATE", "one-shot iterators are not shared between loop iterations", where=ev.loc, construct=ev.text(), entry=entry,
                      config=res.config,
-                     msg=f"a one-shot `{ev.d['kind']}` iterator created outside the loop is consumed inside it: it is exhausted after the first "
-                         f"sample, every later sample sees an empty sequence")
+                     msg=(f"a one-shot `{ev.d['kind']}` iterator created outside the loop is consumed inside it: it is exhausted after the first "
+                          f"sample, every later sample sees an empty sequence") if "zipped with itself" not in ev.d["kind"] else
+                         ("one iterator object is passed twice to zip: both positions draw from the same stream, so items are paired (0,1), (2,3), … "
+                          "and an unpaired last item is dropped — later items are never compared with their neighbours"))
 
 
 def _canon_call_text(node):
@@ -490,7 +492,15 @@ def rule_sep(rep, res, entry=None, sym="bs"):
                                       config=res.config, msg=f"{atom} over {src} keeps the batch axis (per-row)")
                         continue
                     if role == "objective":
-                        if atom in X.CVX_ADDITIVE or atom in X.CVX_MONO_ADDITIVE:
+                        back = _broadcast_back(v, val, sym)
+                        if back is not None:
+                            bnode = back.tag("node")
+                            rep.violated("R-SEP", f"{role}:{atom}", where=where, construct=text, entry=entry, config=res.config,
+                                         msg=f"`{atom}` collapses the batch-stacked axis of {src} and the result is combined again with a "
+                                             f"batch-stacked operand (`{norm_text(bnode)[:60] if bnode is not None else 'elementwise'}`): one "
+                                             f"statistic of the WHOLE batch (padded rows included) enters every sample's term, so rows of one "
+                                             f"batch influence each other")
+                        elif atom in X.CVX_ADDITIVE or atom in X.CVX_MONO_ADDITIVE:
                             rep.holds("R-SEP", f"{role}:{atom}", where=where, construct=text, entry=entry,
                                       config=res.config, msg=f"additive reducer {atom} over stacked axis of {src}")
                         elif atom in X.CVX_COUPLING:
@@ -506,6 +516,32 @@ def rule_sep(rep, res, entry=None, sym="bs"):
                                      config=res.config,
                                      msg=f"constraint collapses the batch-stacked axis of {src} with `{atom}`: one joint "
                                          f"constraint for the whole batch instead of one per sample")
+
+
+def _broadcast_back(root, target, sym, depth=0):
+    """the atom inside `root` that combines (an expression containing) `target` — a value whose stacked axis was collapsed — elementwise
+    with an operand that still carries the stacked axis; None if the collapsed value only flows to the root through scalars"""
+    def contains(v, d=0):
+        if v is target:
+            return True
+        a = v.tag("atom") if v is not None else None
+        return bool(a) and d < 60 and any(contains(o, d + 1) for o in a[1])
+    def walk(v, d=0):
+        a = v.tag("atom") if v is not None else None
+        if not a or d > 60 or v is target:
+            return None
+        ops = a[1]
+        inside = [o for o in ops if contains(o)]
+        if inside and a[0] in ("add", "sub", "mul", "multiply", "div", "maximum", "minimum", "hstack", "vstack") and len(ops) >= 2:
+            others = [o for o in ops if o not in inside]
+            if any(has_sym(o.shape, sym) for o in others) and not any(has_sym(o.shape, sym) for o in inside):
+                return v
+        for o in inside:
+            r = walk(o, d + 1)
+            if r is not None:
+                return r
+        return None
+    return walk(root)
 
 
 def _rel_guards(ev, ref):
@@ -873,6 +909,38 @@ def rule_extent_coincidence(rep, res, entry=None, rule="R-DISPATCH"):
         rep.violated(rule, "no dispatch on a coincidence of unrelated extents", where=ev.loc, construct=ev.text(), entry=entry, config=res.config,
                      msg=f"the branch is chosen by whether the extent of axis {a} equals that of axis {b}: whenever the two happen to coincide "
                          f"(e.g. as many samples as channels) the other interpretation of the argument is taken")
+
+
+def rule_iter_arrays_per_sample(rep, res, entry=None, rule="R-STACK", sample=("N",)):
+    """the arrays handed to the batch iterator are iterated TOGETHER (zipped row by row, or sliced with the same windows): each has one
+    entry per sample.  An array with a single entry (a scalar promoted by np.atleast_1d, not broadcast to the number of samples) ends the
+    zipped iteration after the first sample and leaves the remaining result rows at their initial value."""
+    entry = entry or res.entry
+    n = 0
+    for ev in res.events("call"):
+        if ev.d["callee"].name != "batched_iteration" or not ev.d["args"]:
+            continue
+        its = ev.d["args"][1] if len(ev.d["args"]) > 1 else ev.d["kws"].get("iter_arrays")
+        fn = ev.d["callee"]
+        bound = dict(ev.d["kws"])
+        for i, a in enumerate(ev.d["args"]):
+            if i < len(fn.params):
+                bound.setdefault(fn.params[i], a)
+        its = bound.get("iter_arrays")
+        if its is None or its.items is None:
+            continue
+        for k, it in enumerate(its.items):
+            sh = it.flat().shape
+            if sh is None or sh.ell or not sh.axes or sh.axes[0] is None:
+                continue
+            n += 1
+            ok = sh.axes[0] == sample or sample[0] in sh.axes[0]
+            rep.check(rule, "arrays iterated with the targets have one entry per sample", ok, where=ev.loc,
+                      construct=f"iter_arrays[{k}] of {ev.text()[:60]}", entry=entry, config=res.config,
+                      msg=f"an array of shape {sh} is iterated together with the per-sample targets: with a single entry the zipped iteration "
+                          f"stops after the first sample (batch_size=1) and the remaining rows of the result keep their initial zeros; other "
+                          f"batch sizes fail on the shape")
+    return n
 
 
 def rule_count_denominator(rep, res, entry=None, rule="R-VALUE", counts=("n", "num", "n_samples", "n_points", "steps", "n_steps", "size")):
@@ -1258,8 +1326,15 @@ def rule_facet_pairs(rep, model, mod="dreye.api.project", entry=None, rule="R-CO
                     and any(isinstance(x, ast.Attribute) and x.attr == "simplices" for x in ast.walk(outer.iter))):
                 continue
             e = outer.target.id
+            # names computed from the facet inside the loop (`below = [i for i in e if …]`) stand for (parts of) the facet
+            derived = {e}
+            for _ in range(3):
+                for a in ast.walk(outer):
+                    if isinstance(a, ast.Assign) and len(a.targets) == 1 and isinstance(a.targets[0], ast.Name) \
+                            and derived & {x.id for x in ast.walk(a.value) if isinstance(x, ast.Name)}:
+                        derived.add(a.targets[0].id)
             def over_e(node):
-                return e in {x.id for x in ast.walk(node) if isinstance(x, ast.Name)}
+                return bool(derived & {x.id for x in ast.walk(node) if isinstance(x, ast.Name)})
             for inner in ast.walk(outer):
                 if inner is outer or not isinstance(inner, ast.For) or not over_e(inner.iter):
                     continue
@@ -1285,6 +1360,28 @@ def rule_facet_pairs(rep, model, mod="dreye.api.project", entry=None, rule="R-CO
                                                       for x in ast.walk(inner)):
                     n_inst += 1
                     rep.holds(rule, "every pair of a facet's vertices is visited", where=where, construct="nested loops over " + e, entry=ent)
+                # only edges that CROSS the requested total contribute a point: each yielded pair is selected by a test of its two ends
+                # against the total (or drawn from the two sides to begin with); a pair on one side is extrapolated outside the hull
+                if isinstance(tg, ast.Tuple) and len(tg.elts) == 2 and all(isinstance(x, ast.Name) for x in tg.elts):
+                    others = [a.arg for a in fn.node.args.args[1:]]
+                    side = set(others)
+                    for _ in range(4):
+                        for a in ast.walk(fn.node):
+                            if isinstance(a, ast.Assign) and len(a.targets) == 1 and isinstance(a.targets[0], ast.Name) \
+                                    and side & {x.id for x in ast.walk(a.value) if isinstance(x, ast.Name)}:
+                                side.add(a.targets[0].id)
+                    ij = {x.id for x in tg.elts}
+                    yields = [y for y in ast.walk(inner) if isinstance(y, (ast.Yield, ast.YieldFrom))]
+                    if yields and others:
+                        tests = [t.test for t in ast.walk(inner) if isinstance(t, ast.If)]
+                        sel = [t for t in tests if (side & {x.id for x in ast.walk(t) if isinstance(x, ast.Name)})
+                               and (ij & {x.id for x in ast.walk(t) if isinstance(x, ast.Name)})]
+                        from_sides = bool(side & {x.id for x in ast.walk(it) if isinstance(x, ast.Name)} - {e})
+                        rep.check(rule, "only pairs on opposite sides of the total are intersected with it", bool(sel) or from_sides, where=where,
+                                  construct=norm_text(it)[:80], entry=ent,
+                                  msg=f"no test inside the pair loop compares the two ends ({', '.join(sorted(ij))}) with the requested total "
+                                      f"(`{'`, `'.join(others)}`): pairs with both ends on the same side are yielded too, and the line through them "
+                                      f"is extrapolated to the total — a point outside the hull")
     return n_inst
 
 
